@@ -293,21 +293,7 @@ func (r *SparseFloat32Vector) VdivS(a ConstVector, b ConstScalar) Vector {
   return r
 }
 func (r *SparseFloat32Vector) VDIVS(a *SparseFloat32Vector, b Float32) *SparseFloat32Vector {
-  if r.Dim() != a.Dim() {
-    panic("vector dimensions do not match")
-  }
-  for it := r.JOINT_ITERATOR_(a); it.Ok(); it.Next() {
-    s_r := it.s1
-    s_a := it.s2
-    if s_r.ptr == nil {
-      s_r = r.AT(it.Index())
-    }
-    if s_a.ptr == nil {
-      s_r.SetFloat32(0.0)
-    } else {
-      s_r.DIV(s_a, b)
-    }
-  }
+  r.VdivS(a, b)
   return r
 }
 /* -------------------------------------------------------------------------- */
